@@ -130,12 +130,7 @@ def TYPED(obj):
 
 
 def _wf_base(s):
-    d = {"base-wf": WFSET(D(s.base_offset)) if smt() else all(isinstance(x, int) and x >= 0 for x in s.base_offset)}
-    if smt():
-        for name in ("_element_type", "_delimiter_header_type", "_inner", "_tag_field_type"):
-            if s.self.fields is not None and name in s.self.fields and isinstance(s.self.fields[name], Obj):
-                d["typing-of-" + name] = TYPED(s.self.fields[name])
-    return d
+    return {"base-wf": WFSET(D(s.base_offset)) if smt() else all(isinstance(x, int) and x >= 0 for x in s.base_offset)}
 
 
 # ------------------------------------------------------------------------------------------------ union
@@ -507,9 +502,6 @@ class _SerAttr:
     returns = ObjOf(ANY)
 
     raises = {"UndefinedAttributeError": lambda s: OR(NOT(EQ(s.name._value, "_bit_length_")), ISINST(s.self, SERVICE_NAME))}
-
-    def pre(s):
-        return {"typing": TYPED(s.self) if smt() and s.self.fields is None else True}
 
     def post(s):
         return {"bit-length-intrinsic": AND(
